@@ -1857,7 +1857,7 @@ class Interp:
         a = truthy(self.eval(n.args[0], env))
         if a is False:
             return True
-        if not isinstance(a, bool) and any(isinstance(x, ast.Subscript) for x in ast.walk(n.args[1])):
+        if not isinstance(a, bool) and not getattr(self, "_in_quant", 0) and any(isinstance(x, ast.Subscript) for x in ast.walk(n.args[1])):
             # the consequent looks something up that may only be defined under the antecedent: evaluate it on the paths where the antecedent holds
             if not self.path.branch(a):
                 return True
@@ -1923,7 +1923,11 @@ class Interp:
         j = z3.Int(self.path.fresh(var))
         e = Env(parent=env, module=env.module)
         e.vars[var] = SInt(j)
-        body = _zb(truthy(self.eval(lam.body, e)))
+        self._in_quant = getattr(self, "_in_quant", 0) + 1
+        try:
+            body = _zb(truthy(self.eval(lam.body, e)))
+        finally:
+            self._in_quant -= 1
         rng = z3.And(z3_of(lo) <= j, j < z3_of(hi))
         if universal:
             return SBool(z3.ForAll([j], z3.Implies(rng, body)))
@@ -1935,7 +1939,11 @@ class Interp:
         j = z3.Int(self.path.fresh(var))
         e = Env(parent=env, module=env.module)
         e.vars[var] = SInt(j)
-        body = _zb(truthy(self.eval(lam.body, e)))
+        self._in_quant = getattr(self, "_in_quant", 0) + 1
+        try:
+            body = _zb(truthy(self.eval(lam.body, e)))
+        finally:
+            self._in_quant -= 1
         return SBool(z3.ForAll([j], body))
 
     def s_to_str(self, n, env):
